@@ -111,6 +111,12 @@ func main() {
 			}
 		}
 	}
+	// the subscriber decorator around a scripted inner subscriber: trace conformance with M_dec
+	nDec := 150
+	if a.Thorough() {
+		nDec = 2500
+	}
+	emitDec(out, rng, nDec)
 	f := gc.Focus{Blocking: 300, Persistent: 400, Cancel: 400, Hold: 200, Nested: 0, Late: 400, CloseRace: 600, Decorators: 350, MaxSubs: 4, MaxPubs: 3, MaxMsgs: 4}
 	for i := 0; i < n; i++ {
 		if !emit(gc.Random(rng, f)) {
